@@ -666,8 +666,14 @@ pub enum Slot {
 }
 
 pub fn god_sat_slots<'a>(env: &'a crate::sim::Env, tx: &Transaction, idx: usize, keys: &[usize], hashes: &[usize], aux_seed: u64, allow: &dyn Fn(usize, Slot) -> bool) -> WorldSat<'a> {
-    let mut sat = WorldSat::empty(&env.uni, &env.by_expr, tx, idx);
     let prevouts: Vec<TxOut> = env.inputs.iter().map(|i| i.utxo.clone()).collect();
+    god_sat_over(env, tx, idx, keys, hashes, aux_seed, allow, prevouts)
+}
+
+/// As `god_sat_slots`, but the signers believe `prevouts` (a signer that follows the PSBT's UTXO records).
+#[allow(clippy::too_many_arguments)]
+pub fn god_sat_over<'a>(env: &'a crate::sim::Env, tx: &Transaction, idx: usize, keys: &[usize], hashes: &[usize], aux_seed: u64, allow: &dyn Fn(usize, Slot) -> bool, prevouts: Vec<TxOut>) -> WorldSat<'a> {
+    let mut sat = WorldSat::empty(&env.uni, &env.by_expr, tx, idx);
     if tx.input.len() != prevouts.len() {
         return sat;
     }
